@@ -838,7 +838,8 @@ impl W {
                 if inc.tasks[i].1.is_finished() {
                     let (t, h, polls) = inc.tasks.remove(i);
                     let r = inc.rt.block_on(h);
-                    responses.push((t, r.map_err(|e| format!("{:?}", e)), polls.load(Ordering::Relaxed)));
+                    // (a JoinError prints the runtime's task id, which differs from run to run: keep it out of the log)
+                    responses.push((t, r.map_err(|e| if e.is_panic() { "the handler task panicked".to_string() } else { "the handler task was cancelled".to_string() }), polls.load(Ordering::Relaxed)));
                 } else {
                     i += 1;
                 }
@@ -864,6 +865,7 @@ impl W {
             self.on_request(r);
         }
         let mut by_hash: BTreeMap<String, Vec<(usize, String)>> = BTreeMap::new();
+        let mut died: Vec<usize> = Vec::new();
         for (t, r, polls) in responses {
             match r {
                 Ok(resp) => {
@@ -885,6 +887,7 @@ impl W {
                 Err(e) => {
                     self.trace.push(format!("  plugin => {} : HANDLER DIED {}", self.cfg.templates[t].spec.name, e));
                     self.hstate[t] = HState::Panicked;
+                    died.push(t);
                 }
             }
         }
@@ -918,6 +921,15 @@ impl W {
                 .into_iter()
                 .filter(|t| matches!(self.cfg.templates[*t].class, Class::Trampoline { .. }) && !matches!(ev, Ev::Deliver(d) if d == t))
                 .collect();
+            let died_here: Vec<String> = died.iter().filter(|t| self.hash_of_template(**t) == h).map(|t| self.cfg.templates[*t].spec.name.clone()).collect();
+            if !died_here.is_empty() && !tramp.is_empty() {
+                self.violate(
+                    "C07",
+                    "whole-set",
+                    "a decision answered part of the held set while the handlers of the other HTLCs died without a response".into(),
+                    format!("answered {:?}, died {:?}", tramp.iter().map(|(t, _)| self.cfg.templates[*t].spec.name.clone()).collect::<Vec<_>>(), died_here),
+                );
+            }
             if !still.is_empty() && !tramp.is_empty() {
                 let d = format!(
                     "answered {:?}, still held {:?}",
